@@ -579,31 +579,74 @@ theorem name_cases {b : Path} (h : '/' ∉ b) : IsName b ∨ b = [] ∨ b = dot 
 
 /-! ### the file system -/
 
-/-- every directory of `fs` is still a directory in `fs'` -/
-def KeepsDirs (fs fs' : FS) : Prop := ∀ p, fs.isDir p = true → fs'.isDir p = true
+/-- every (real) directory of `fs` is still a directory in `fs'` -/
+def KeepsDirs (fs fs' : FS) : Prop := ∀ p, fs.isRealDir p = true → fs'.isRealDir p = true
 
 theorem KeepsDirs.refl (fs : FS) : KeepsDirs fs fs := fun _ h => h
 theorem KeepsDirs.trans {a b c : FS} (h1 : KeepsDirs a b) (h2 : KeepsDirs b c) : KeepsDirs a c :=
   fun p h => h2 p (h1 p h)
 
-theorem keepsDirs_remove_file {fs : FS} {d : Path} (h : fs.isDir d = false) : KeepsDirs fs (fs.remove d) := by
-  intro p hp
-  by_cases e : p = d
-  · subst e; rw [h] at hp; exact absurd hp (by decide)
-  · simpa [FS.isDir, FS.remove, e] using hp
+theorem not_isDir_not_real {fs : FS} {p : Path} (h : fs.isDir p = false) : fs.isRealDir p = false := by
+  unfold FS.isDir at h
+  unfold FS.isRealDir
+  cases hk : fs.kind p with
+  | none => simp
+  | some k => cases k <;> simp_all
 
-theorem keepsDirs_set {fs : FS} {d : Path} (k : Kind) (h : fs.isDir d = false) : KeepsDirs fs (fs.set d k) := by
+theorem keepsDirs_remove_real {fs : FS} {d : Path} (h : fs.isRealDir d = false) : KeepsDirs fs (fs.remove d) := by
   intro p hp
   by_cases e : p = d
   · subst e; rw [h] at hp; exact absurd hp (by decide)
-  · simpa [FS.isDir, FS.set, e] using hp
+  · simpa [FS.isRealDir, FS.remove, e] using hp
+
+theorem keepsDirs_set_real {fs : FS} {d : Path} (k : Kind) (h : fs.isRealDir d = false) : KeepsDirs fs (fs.set d k) := by
+  intro p hp
+  by_cases e : p = d
+  · subst e; rw [h] at hp; exact absurd hp (by decide)
+  · simpa [FS.isRealDir, FS.set, e] using hp
+
+theorem keepsDirs_remove_file {fs : FS} {d : Path} (h : fs.isDir d = false) : KeepsDirs fs (fs.remove d) :=
+  keepsDirs_remove_real (not_isDir_not_real h)
+
+theorem keepsDirs_set {fs : FS} {d : Path} (k : Kind) (h : fs.isDir d = false) : KeepsDirs fs (fs.set d k) :=
+  keepsDirs_set_real k (not_isDir_not_real h)
+
+theorem keepsDirs_openWrite {fs : FS} {d : Path} (h : fs.isDir d = false) : KeepsDirs fs (fs.openWrite d) := by
+  unfold FS.openWrite
+  split
+  · exact keepsDirs_set _ h
+  · exact keepsDirs_set _ h
 
 theorem isFile_not_isDir {fs : FS} {p : Path} (h : fs.isFile p = true) : fs.isDir p = false := by
   unfold FS.isFile at h
   unfold FS.isDir
   cases hk : fs.kind p with
   | none => simp
-  | some k => cases k <;> simp_all
+  | some k =>
+    cases k with
+    | link r =>
+      cases r with
+      | none => simp_all
+      | some x => cases x <;> simp_all
+    | _ => simp_all
+
+theorem isDir_exists {fs : FS} {p : Path} (h : fs.isDir p = true) : fs.pathExists p = true := by
+  unfold FS.isDir at h
+  unfold FS.pathExists
+  cases hk : fs.kind p with
+  | none => simp_all
+  | some k =>
+    cases k with
+    | link r =>
+      cases r with
+      | none => simp_all
+      | some x => cases x <;> simp_all
+    | _ => simp_all
+
+theorem not_exists_not_isDir {fs : FS} {p : Path} (h : fs.pathExists p = false) : fs.isDir p = false := by
+  cases hd : fs.isDir p
+  · rfl
+  · rw [isDir_exists hd] at h; exact absurd h (by decide)
 
 theorem removeExisting_spec (fs : FS) (p : Path) :
     (fs.isFile p = true ∧ removeExisting fs p = (fs.remove p, .ok ())) ∨
@@ -712,27 +755,49 @@ theorem askPermission_keepsDirs {fs fs' : FS} {a : Args} {d : Path} {r} (h : ask
 theorem keepsDirs_set_dir (fs : FS) (d : Path) : KeepsDirs fs (fs.set d .dir) := by
   intro p hp
   by_cases e : p = d
-  · subst e; simp [FS.isDir, FS.set]
-  · simpa [FS.isDir, FS.set, e] using hp
+  · subst e; simp [FS.isRealDir, FS.set]
+  · simpa [FS.isRealDir, FS.set, e] using hp
 
-theorem writeFile_keepsDirs {fs fs' : FS} {d t : Path} {r} (ht : fs.isDir t = false)
+theorem writeFile_keepsDirs {fs fs' : FS} {d t : Path} {r} (ht : fs.isRealDir t = false)
     (h : writeFile fs d t = (fs', r)) : KeepsDirs fs fs' := by
   unfold writeFile at h
   split at h
   · have : fs' = fs := (congrArg Prod.fst h).symm
     rw [this]; exact KeepsDirs.refl fs
   · rename_i hd
-    have hd' : fs.isDir d = false := by simpa using hd
-    have : fs' = (fs.remove t).set d .file := (congrArg Prod.fst h).symm
-    rw [this]
-    refine (keepsDirs_remove_file ht).trans (keepsDirs_set _ ?_)
-    by_cases e : d = t
-    · subst e; simp [FS.isDir, FS.remove]
-    · simpa [FS.isDir, FS.remove, e] using hd'
+    have hd' : fs.isRealDir d = false := by simpa using hd
+    cases hk : fs.kind t with
+    | none =>
+      rw [hk] at h
+      have : fs' = fs := (congrArg Prod.fst h).symm
+      rw [this]; exact KeepsDirs.refl fs
+    | some k =>
+      rw [hk] at h
+      have : fs' = (fs.remove t).set d k := (congrArg Prod.fst h).symm
+      rw [this]
+      refine (keepsDirs_remove_real ht).trans (keepsDirs_set_real _ ?_)
+      by_cases e : d = t
+      · subst e; simp [FS.isRealDir, FS.remove]
+      · simpa [FS.isRealDir, FS.remove, e] using hd'
 
-/-- after a successful `_handle_file` the staging path is a regular file -/
+theorem openWrite_not_real (fs : FS) (t : Path) : (fs.openWrite t).isRealDir t = false := by
+  unfold FS.openWrite
+  split <;> simp [FS.isRealDir, FS.set]
+
+theorem openWrite_kind_self (fs : FS) (t : Path) : ∃ k, (fs.openWrite t).kind t = some k := by
+  unfold FS.openWrite
+  split <;> simp [FS.set]
+
+theorem openWrite_kind_other {fs : FS} {t d : Path} (h : d ≠ t) : (fs.openWrite t).kind d = fs.kind d := by
+  unfold FS.openWrite
+  split <;> simp [FS.set, h]
+
+theorem not_exists_not_real {fs : FS} {p : Path} (h : fs.pathExists p = false) : fs.isRealDir p = false :=
+  not_isDir_not_real (not_exists_not_isDir h)
+
+/-- after a successful `_handle_file` the staging path is not a directory -/
 theorem handleFile_ok_tmp {fs fs1 : FS} {a : Args} {n d t : Path} (h : handleFile fs a n = (fs1, .ok (d, t))) :
-    fs1.isDir t = false := by
+    fs1.isRealDir t = false := by
   unfold handleFile at h
   cases hd : decideDest fs a n with
   | mk f1 r1 =>
@@ -758,6 +823,6 @@ theorem handleFile_ok_tmp {fs fs1 : FS} {a : Args} {n d t : Path} (h : handleFil
             · simp only [Prod.mk.injEq, Except.ok.injEq] at h
               obtain ⟨h1, _, h3⟩ := h
               rw [← h1, ← h3]
-              simp [FS.isDir, FS.set]
+              exact openWrite_not_real f2 _
 
 end WV.C05
